@@ -68,6 +68,14 @@ class Exec:
                 w.loop._one()
         elif op == 'silence':
             w.silent = True
+        elif op == 'set_handler':
+            # the application installs (another instance of) its handler on the live endpoint - public API set_handler_using_factory
+            ep = a[0]
+            if ep not in w.eps:
+                return self._skip()
+            if not hasattr(w, 'installed_handler'):
+                w.installed_handler = {}
+            w.installed_handler[ep] = w.eps[ep].set_handler_using_factory(lambda: w.RecHandler(w, ep))
         elif op == 'peer_keepalive':
             pid, p = w.payloads.make(a[0], 0)
             body = wire.encode('KEEPALIVE', flags=wire.F_RESPOND if a[1] else 0, extra=(12345).to_bytes(8, 'big'), d=bytes(p.data or b''))
